@@ -157,7 +157,7 @@ KEY_X = secp.xonly(secp.gen(12345))
 
 @st.composite
 def tap_cmd(draw):
-    kind = draw(st.sampled_from(['valid', 'counts', 'key', 'txs', 'junk', 'index', 'consistent', 'consistent']))
+    kind = draw(st.sampled_from(['valid', 'counts', 'key', 'txs', 'junk', 'index', 'consistent', 'consistent', 'prefix']))
     n = draw(st.integers(1, 6))
     scripts = ['0x' + draw(st.sampled_from([b'\x51', b'\x75\x51', R.push_enc(KEY_X) + b'\xac'])).hex() for _ in range(n)]
     argv = [KEY_X.hex(), str(n)] + scripts
@@ -208,6 +208,10 @@ def tap_cmd(draw):
             argv += ['0'] + [junk_text(draw) for _ in range(draw(st.integers(0, 2)))]
         if draw(st.integers(0, 2)) == 0:
             argv = [draw(st.sampled_from(['--sig=' + '00' * 64, '--sig=' + '11' * 65, '--sig=', '--sig=zz']))] + argv
+    elif kind == 'prefix':
+        argv = ['--addrprefix=' + draw(st.one_of(st.sampled_from(['BC', 'Bc', 'tB', '', ' ', '1', 'bc1', 'a' * 84, 'a' * 300, 'b c', '\x7f', 'ä', 'bc\t', '-', '--', 'BCRT']), st.text(alphabet='abcXYZ019 _-', max_size=6)))] + argv
+        if draw(st.booleans()):
+            argv += ['0']
     elif kind == 'junk':
         argv = [junk_text(draw) for _ in range(draw(st.integers(0, 5)))]
     elif kind == 'index':
